@@ -3,6 +3,7 @@
 # (default: one or two representative ones per property; `all`: every one) the check of the property it was written against
 # (or the check named in meta.json when that one cannot see it) is run against a scratch worktree with the change applied;
 # it must report a VIOLATION. Prints one line per change and a summary; exit 1 if any change goes unnoticed.
+mkdir -p /tmp/wt
 export GOFLAGS=-mod=mod GOPROXY=off GOSUMDB=off GOTOOLCHAIN=local
 V="${VERIF_SNAP:-/verif}"   # VERIF_SNAP=<dir>: run the checks from a snapshot copy of /verif
 cd "$V"
